@@ -10,7 +10,7 @@
    on hole-free terms is decided by the streams. *)
 From Coq Require Import List ZArith Bool Relations.
 Import ListNotations.
-Require Import Gram.Model.Term Gram.Model.DeBruijn Gram.Model.Eval Gram.Spec.Typing Gram.Oracle.Infer Gram.Proofs.InferSound Gram.Proofs.ConvProofs Gram.Proofs.ConvSym.
+Require Import Gram.Model.Term Gram.Model.DeBruijn Gram.Model.Eval Gram.Spec.Typing Gram.Oracle.Infer Gram.Proofs.InferSound Gram.Proofs.ConvProofs Gram.Proofs.ConvSym Gram.Model.ModelB Gram.Proofs.ModelBHoleFree.
 
 Theorem C06_step_in_conv : forall t G t', step t = Some t' -> conv G t t'.
 Proof. exact step_in_conv. Qed.
@@ -61,3 +61,40 @@ Example C06_nf_example :
   nf 20 [] (TApp (TLam false TInt (TBin OSum (TVar 0) (TLit 1))) (TLit 2)) = Some (TLit 3) /\
   nf 20 [] (TLet [(TInt, TLit 3)] (TVar 0)) = Some (TLit 3).
 Proof. split; vm_compute; reflexivity. Qed.
+
+(* The store-passing mirror of the implementation's normaliser and unifier (Model B: `whnfB`, `unifyB`, the one
+   compared with normalize_weak_head / unify case by case) IS the proved mirror on hole-free terms
+   (Proofs/ModelBHoleFree.v): it leaves the store alone, `whnfB` computes `whnf` at the same fuel, and
+   `unifyB`'s verdict - syntactic shortcut included - is the conversion test's on every fuel at which that is
+   defined; hence it is symmetric, sound for definitional equality, and true exactly when the normal forms
+   are equal. *)
+Theorem C06_whnfB_is_whnf : forall f s D t u s' G,
+  same_defs G (G_of_D D) -> hf_dctx D -> hole_free t = true -> whnfB f s D t = Some (u, s') ->
+  s' = s /\ hole_free u = true /\ whnf f G t = Some u /\ (forall f' u', whnf f' G t = Some u' -> u' = u).
+Proof. exact whnfB_whnf. Qed.
+Check C06_whnfB_is_whnf : forall f s D t u s' G,
+  same_defs G (G_of_D D) -> hf_dctx D -> hole_free t = true -> whnfB f s D t = Some (u, s') ->
+  s' = s /\ hole_free u = true /\ whnf f G t = Some u /\ (forall f' u', whnf f' G t = Some u' -> u' = u).
+Print Assumptions C06_whnfB_is_whnf.
+
+Theorem C06_unifyB_is_convb : forall f s D a b r s' G,
+  same_defs G (G_of_D D) -> hf_dctx D -> hole_free a = true -> hole_free b = true ->
+  unifyB f s D a b = Some (r, s') ->
+  s' = s /\ forall f' r', convb f' G a b = Some r' -> r' = r.
+Proof. exact unifyB_convb. Qed.
+Check C06_unifyB_is_convb : forall f s D a b r s' G,
+  same_defs G (G_of_D D) -> hf_dctx D -> hole_free a = true -> hole_free b = true ->
+  unifyB f s D a b = Some (r, s') ->
+  s' = s /\ forall f' r', convb f' G a b = Some r' -> r' = r.
+Print Assumptions C06_unifyB_is_convb.
+
+Theorem C06_unifyB_iff_normal_forms_equal : forall f s D a b r s' G f' na nb,
+  same_defs G (G_of_D D) -> hf_dctx D -> hole_free a = true -> hole_free b = true ->
+  unifyB f s D a b = Some (r, s') -> nf f' G a = Some na -> nf f' G b = Some nb ->
+  (r = true <-> na = nb).
+Proof. exact unifyB_iff_nf. Qed.
+Check C06_unifyB_iff_normal_forms_equal : forall f s D a b r s' G f' na nb,
+  same_defs G (G_of_D D) -> hf_dctx D -> hole_free a = true -> hole_free b = true ->
+  unifyB f s D a b = Some (r, s') -> nf f' G a = Some na -> nf f' G b = Some nb ->
+  (r = true <-> na = nb).
+Print Assumptions C06_unifyB_iff_normal_forms_equal.
